@@ -3,6 +3,20 @@ real TestCaseChromosome objects whose fitness is table driven, and observes real
 from __future__ import annotations
 
 HMAX = 1000
+# model fitness (integer) -> fitness float of the stub functions.  Model value 1 is a NEAR MISS: a tiny
+# non-zero float (TINY is set per case: 5e-324, 5.55e-17, 1e-12, just below / above 1e-9); it is not 0,
+# so it must never count as covered, and it is better than every other non-zero value.
+TINY = 1e-12
+_FLOATS = {0: 0.0, 2: 1.0, 4: 2.0, 6: 3.0, 10: 5.0}
+
+
+def set_tiny(x):
+    global TINY
+    TINY = float(x) if x else 1e-12
+
+
+def floatof(m):
+    return TINY if m == 1 else _FLOATS[m]
 
 
 class Res:
@@ -50,7 +64,7 @@ class World:
                 self.gid = gid
 
             def compute_fitness(self, individual):
-                return float(world.sols[sid_of(individual)]["fit"].get(self.gid, 1))
+                return floatof(world.sols[sid_of(individual)]["fit"].get(self.gid, 1))
 
             def compute_is_covered(self, individual):
                 return world.sols[sid_of(individual)]["fit"].get(self.gid, 1) == 0
@@ -122,7 +136,11 @@ def run_arch_history(n_goals, sols, init_objs, ops):
         before = obs_arch(a, fired)
         a._covered.log.clear()
         if op[0] == "Update":
-            out = ("ABool", bool(a.update([w.chrom(s) for s in op[1]])))
+            chroms = [w.chrom(s) for s in op[1]]
+            if len(op) > 2 and op[2]:          # fitness is computed before the archive sees the tests
+                for c in chroms:
+                    c.get_fitness()
+            out = ("ABool", bool(a.update(chroms)))
         else:
             a.add_goals(OrderedSet(w.goals[g] for g in op[1]))
             out = ("AUnit",)
@@ -168,7 +186,7 @@ class StubGraph:
         return OrderedSet(self.world.goals[c] for c in self.edges.get(goal.gid, []))
 
 
-def run_gm_case(n_goals, sols, edges, roots, pre_updates, update_sids):
+def run_gm_case(n_goals, sols, edges, roots, pre_updates, update_sids, prefit=False):
     """The real _GoalsManager.update on a stub goal graph.  pre_updates: earlier update calls that bring
     the manager into a reachable state.  Returns (before, after) of the last call."""
     from pynguin.ga.algorithms.archive import CoverageArchive
@@ -191,8 +209,12 @@ def run_gm_case(n_goals, sols, edges, roots, pre_updates, update_sids):
     def obs():
         return {"arch": obs_arch(a, fired), "current": [g.gid for g in m._current_goals]}
     before = obs()
+    chroms = [w.chrom(s) for s in update_sids]
+    if prefit:
+        for c in chroms:
+            c.get_fitness()
     with watchdog(20, "_GoalsManager.update does not terminate"):
-        m.update([w.chrom(s) for s in update_sids])
+        m.update(chroms)
     return w, before, obs()
 
 
@@ -204,7 +226,15 @@ def hcode_of_float(h, table):
 def h_table():
     from pynguin.ga.fitness_metrics import normalise
 
-    return {1.0 - normalise(float(f)): HMAX // (1 + f) for f in range(0, 30)}
+    import math
+
+    tab = {}
+    for m in (0, 1, 2, 4, 6, 10):
+        h = 1.0 - normalise(floatof(m))
+        if m > 0 and h >= 1.0:      # after fix C13-mio-tiny-fitness-covered: clamped below 1.0
+            h = math.nextafter(1.0, 0.0)
+        tab[h] = HMAX // (1 + m)
+    return tab
 
 
 def obs_pop(p, code):
@@ -307,6 +337,39 @@ def install_observers(algorithm, executor, cluster, job):
         return {"covered": [(gi(g), {**osol(s), "dig": dig(s)}) for g, s in a._covered.items()],
                 "uncovered": [gi(g) for g in a._uncovered], "objectives": [gi(g) for g in a._objectives],
                 "fired": list(fired)}
+
+    if job.get("near_miss"):
+        # seed the search with a test that NEARLY takes a float-equality branch: check(0.3) against
+        # x == 0.1 + 0.2, branch distance 5.55e-17 (not zero)
+        try:
+            from pynguin.testcase.localsearchstatement import set_literal_value
+
+            real_factory = algorithm.chromosome_factory
+            near = None
+            for _ in range(400):
+                cand = real_factory.get_chromosome()
+                st = cand.test_case.statements()
+                if (len(st) == 2 and st[0].bound_type is float and ".check(" in cand.test_case.to_code()
+                        and set_literal_value(cand.test_case, 0, 0.3)):
+                    near = cand
+                    break
+            if near is not None:
+                near.changed = True
+
+                class Seeded:
+                    def __init__(self):
+                        self.first = True
+
+                    def get_chromosome(self):
+                        if self.first:
+                            self.first = False
+                            return near
+                        return real_factory.get_chromosome()
+
+                algorithm.chromosome_factory = Seeded()
+                rec["near_miss_injected"] = True
+        except Exception as e:  # noqa: BLE001
+            rec["near_miss_error"] = f"{type(e).__name__}: {e}"
 
     a = getattr(algorithm, "_archive", None)
     if isinstance(a, arch.CoverageArchive):
@@ -448,4 +511,5 @@ def extract(algorithm, suite, executor, cluster, job):
     rec = job["_rec"]
     return {"job": {k: v for k, v in job.items() if k not in ("_rec", "pre")},
             "arch": rec["arch"], "gm": rec["gm"], "pop": rec["pop"], "reexec": rec["reexec"],
-            "reexec_checked": rec["reexec_checked"], "reexec_inconclusive": rec.get("reexec_inconclusive", 0)}
+            "reexec_checked": rec["reexec_checked"], "reexec_inconclusive": rec.get("reexec_inconclusive", 0),
+            "near_miss_injected": rec.get("near_miss_injected", False), "near_miss_error": rec.get("near_miss_error")}
